@@ -164,16 +164,20 @@ def stream_scenarios(rng, n):
         liveT, liveS = 0, 0
         nT, nS = 1, 1
         h = 5
+        wm_sent, recv_ok = False, True
         for _ in range(rng.range(2, 7)):
             r = rng.below(100)
             side = "T" if rng.chance(1, 2) else "S"
             live = liveT if side == "T" else liveS
             cnt = nT if side == "T" else nS
+            if side == "S" and r < 75:
+                wm_sent = False     # a new source receiver holds no watermark until the source announces one
             if r < 12 and k % 2 == 1:
                 # reconnect whose receiver cannot open its stream to the local server: the pair stays up with its sender
                 # only (the previous incarnation is broken first or evicted by the attempt), until it is broken later
                 if live is not None and rng.chance(1, 2):
                     ev += ["B%s %d" % (side, live), "W"]
+                wm_sent = False
                 ev += ["F" + side, "O" + side]
                 if side == "T":
                     liveT, nT = cnt, cnt + 1
@@ -202,7 +206,8 @@ def stream_scenarios(rng, n):
                     if v == 0:
                         ev += ["B%s %d" % (side, live), "O" + side]
                     elif v == 1:
-                        ev += ["O" + side, "B%s %d" % (side, live)]
+                        # the successor opens (and, with Z, has registered) while the predecessor is still up
+                        ev += ["O" + side] + (["Z"] if rng.chance(2, 3) else []) + ["B%s %d" % (side, live)]
                     else:
                         ev += ["B%s %d" % (side, live), "Y", "O" + side]
                 if side == "T":
@@ -218,10 +223,14 @@ def stream_scenarios(rng, n):
                         liveS = None
             else:
                 pass
+            if side == "T" and r >= 12 and r < 60 and live is not None and liveT is not None and liveS is not None and wm_sent and recv_ok:
+                # the target's stream was re-established while the source is idle: the successor must be handed the pending watermark
+                ev.append("P")
             ev.append("W")
             if liveT is not None and liveS is not None:
                 h += rng.range(1, 5)
                 ev += ["M %d" % h, "A 0"]
+                wm_sent = True
         if liveT is not None:
             ev.append("BT %d" % liveT)
         if liveS is not None:
@@ -240,7 +249,7 @@ def stream_monitor(ev, lines):
     ri = 0
     blocks, cur = [], None
     for l in lines:
-        if l.startswith(("REG", "M ", "A ", "FINAL", "PANIC")):
+        if l.startswith(("REG", "M ", "A ", "FINAL", "PANIC")) or l == "P":
             cur = [l]
             blocks.append(cur)
         elif cur is not None:
@@ -266,7 +275,7 @@ def stream_monitor(ev, lines):
         elif f[0] == "BS":
             if liveS == int(f[1]):
                 liveS = None
-        elif f[0] in ("W", "M", "A"):
+        elif f[0] in ("W", "M", "A", "P"):
             if bi >= len(blocks):
                 bad.append("no report for event " + e)
                 break
@@ -284,6 +293,9 @@ def stream_monitor(ev, lines):
                     bad.append("debug view disagrees: " + b[0])
                 if d["aliveT"] != ("" if liveT is None else str(liveT)) or d["aliveS"] != ("" if liveS is None else str(liveS)):
                     bad.append("handlers still running %s/%s, live incarnations %s/%s" % (d["aliveT"], d["aliveS"], liveT, liveS))
+            elif f[0] == "P":
+                if not any(x.startswith("T 0 ") for x in b[1:]):
+                    bad.append("the target's stream was re-established while the source was idle and the newest incarnation was not handed the pending watermark")
             elif f[0] == "M":
                 if not any(x.startswith("T 0 ") for x in b[1:]):
                     bad.append("watermark %s did not reach the newest target stream" % f[1])
